@@ -240,4 +240,5 @@ def run(ctx, res):
         res.ok("C08.R4", "mtbl/writer.c:file-creators", "mtbl_writer_init holds the unit's only file-creating call")
 
     # ---- properties this one rests on (re-run here, labelled <this>.D.<rule>) ------------------
+    depends(ctx, res, 'C09', ('C09.R6',), 'the finished file holds the accepted entries only if its index keys bound their blocks')
     depends(ctx, res, 'C02', ('C02.R3',), 'the ordering gate is exactly as good as the byte comparison it calls')
